@@ -152,7 +152,23 @@ def pre_history_case(rng, g, tier):
         else:
             pre.append([Sym("index")])
     old_tips = [a for a in tips if a not in new]
-    mode = rng.choice(["new-only", "new-only", "old-only", "both", "gone-names"])
+    mode = rng.choice(["new-only", "new-only", "old-only", "both", "gone-names", "noop-absent", "noop-keepall"])
+    if mode.startswith("noop"):
+        # a prune that removes nothing, on a tree whose name table is not current (a rename without
+        # reindexing, or never indexed): the look-ups afterwards must reflect the tips as they are
+        if not any(op[0].s == "rename" for op in pre) and not noindex:
+            old = rng.choice(tips); nm = "r9"
+            pre.append([Sym("rename"), old, nm]); tips[tips.index(old)] = nm; new.append(nm); gone.append(old)
+        if mode == "noop-absent":
+            names, revert = ["zzq%d" % i for i in range(rng.randint(0, 3))] + gone[:1], False
+        else:
+            names, revert = list(tips) + ["zzq0"], True
+        rng.shuffle(names)
+        case = {"tree": T(t), "names": names, "revert": revert, "pre": pre}
+        if noindex:
+            case["noindex"] = True
+        return {"sx": sx(case), "meta": {"how": "pre:" + mode, "revert": revert, "ntips": len(tips), "left>=3": True,
+                                         "rooted": len(t["slots"]) == 2, "absent": True}}
     if mode == "new-only" and new:
         remove = rng.sample(new, rng.randint(1, len(new)))
     elif mode == "old-only" or not new:
